@@ -105,6 +105,13 @@ def cases(tier, seed):
         out.append({"id": "robust-index:%s:x=%r:n=%r" % (sh, x, n),
                     "kind": "robust", "shape": sh, "x": x, "beta": 0.4,
                     "gamma": 0.7, "n": [complex(n).real, complex(n).imag]})
+    # size anchor (not literally in the statement, like the weak-coupling
+    # anchor of C09): no symmetry can see a particle computed too large.  In
+    # the Rayleigh-Gans limit (small, index close to the medium's) the
+    # forward amplitude of ANY shape is proportional to its volume
+    for sh in ("cylinder", "spheroid"):
+        out.append({"id": "volume-anchor:%s" % sh, "kind": "volume",
+                    "shape": sh})
     # radii that are an odd number of quarter wavelengths (outside or
     # inside the sphere): cos(kr) = 0 to the last bit
     for i in range(len(SPECIAL_R)):
@@ -531,6 +538,42 @@ def _run_robust(case, ck):
     return digest(fp_values(h)), "ok"
 
 
+def _run_volume(case, ck):
+    import warnings
+    from holopy.core.metadata import detector_points
+    from holopy.scattering import (calc_scat_matrix, Sphere, Cylinder,
+                                   Spheroid, Mie, Tmatrix)
+    det = detector_points(theta=np.array([0.0, 0.2]), phi=np.array([0.0, 0.0]))
+    n = H.NMED + 0.01
+    fps = []
+    dims = [(0.05, 0.08), (0.1, 0.1), (0.06, 0.2)]
+    for a, b in dims:
+        if case["shape"] == "cylinder":
+            sc = Cylinder(n=n, d=a, h=b, center=(0, 0, 0))
+            vol = math.pi * (a / 2) ** 2 * b
+            what = "Cylinder(d=%g, h=%g)" % (a, b)
+        else:
+            sc = Spheroid(n=n, r=(a / 2, b / 2), center=(0, 0, 0))
+            vol = 4 / 3 * math.pi * (a / 2) ** 2 * (b / 2)
+            what = "Spheroid(r=(%g, %g))" % (a / 2, b / 2)
+        req = (3 * vol / (4 * math.pi)) ** (1 / 3.)
+        with warnings.catch_warnings():
+            warnings.simplefilter("ignore")
+            S = calc_scat_matrix(det, sc, H.NMED, H.WL,
+                                 theory=Tmatrix()).values
+            T = calc_scat_matrix(det, Sphere(n=n, r=req, center=(0, 0, 0)),
+                                 H.NMED, H.WL, theory=Mie()).values
+        ck.trans += 2
+        ratio = float(abs(S[0, 0, 0]) / abs(T[0, 0, 0]))
+        ck.metric("volume-anchor-ratio-1", abs(ratio - 1))
+        # shape corrections are O((k a)^2) < 2 % for these sizes
+        ck.true("volume-anchor", abs(ratio - 1) <= 0.05, "%s: forward "
+                "amplitude is %.3f times that of the sphere of equal volume "
+                "(Rayleigh-Gans limit: 1)" % (what, ratio))
+        fps.append(fp_values(S))
+    return digest(*fps)
+
+
 def run_case(case):
     ck = Checker()
     if case["kind"] == "robust":
@@ -542,5 +585,6 @@ def run_case(case):
     fp = {"sphere": _run_sphere, "equalaxes": _run_equalaxes,
           "sym": _run_sym, "history": _run_history,
           "spherespecial": _run_spherespecial,
-          "baddims": _run_baddims}[case["kind"]](case, ck)
+          "baddims": _run_baddims,
+          "volume": _run_volume}[case["kind"]](case, ck)
     return ck.result(fp=fp)
